@@ -17,6 +17,9 @@ use std::sync::{Arc, Condvar, Mutex};
 
 pub type FileMap = BTreeMap<String, Vec<u8>>;
 
+/// the observer installed by main (drivers that need to script the clock reach it here)
+pub static GLOBAL: std::sync::OnceLock<Arc<Obs>> = std::sync::OnceLock::new();
+
 #[derive(Clone, Debug)]
 pub struct IoEvent {
     pub step: u64,
